@@ -495,10 +495,17 @@ func dcheck(cs *Case, cr *CaseResult, rootUser bool, res *lib.Result) []lib.Viol
 					}
 				case "unreadable":
 					// no content, no line
+				case "notypeset":
+					// a well-formed, correctly named definition that is not the TypeSet a module's init_typeset.pp must
+					// hold: neither malformed nor misnamed; the property text asks for no line here (the file is named)
+				case "misnamed":
+					// the line of the declaration `type <Name> = ...`
+					if o.LocFile != named || o.LocLine != bf.Content.Pad+1 {
+						add("bad-file-line", fmt.Sprintf("op %d load %q: misnamed file %s is reported (%s) with location %s line %d, the declaration is on line %d of that file", i, name, named, o.Code, o.LocFile, o.LocLine, bf.Content.Pad+1))
+					}
 				default:
 					if o.LocFile != named || o.LocLine < 1 || o.LocLine > lineCount(render(bf.Content)) {
-						add("bad-file-line", fmt.Sprintf("op %d load %q: %s file %s is reported (%s) with location %s line %d, which is not a line of that file", i, name, bad, named, o.Code, o.LocFile, o.LocLine),
-							"definition-error-without-pp-line")
+						add("bad-file-line", fmt.Sprintf("op %d load %q: %s file %s is reported (%s) with location %s line %d, which is not a line of that file", i, name, bad, named, o.Code, o.LocFile, o.LocLine))
 					}
 				}
 			case "found", "notfound":
